@@ -11,7 +11,8 @@ LEVY = ["none", "space-time", "davie", "foster"]
 DT = {"f64": torch.float64, "f32": torch.float32}
 
 
-def random_config(rng, wrappers=("interval",), allow_f32=True, levy=None, shapes=None, max_span=5.0):
+def random_config(rng, wrappers=("interval",), allow_f32=True, levy=None, shapes=None, max_span=5.0,
+                  offgrid_ends_ok=False):
     """A constructor configuration the documentation allows (JSON-serialisable dict)."""
     wrapper = rng.choice(list(wrappers))
     shapes = shapes or [[], [3], [2, 3], [4, 2], [2, 3, 2], [1, 2], [3, 1]]
@@ -28,7 +29,8 @@ def random_config(rng, wrappers=("interval",), allow_f32=True, levy=None, shapes
         cfg["entropy"] = 0
     elif r < 0.10:
         cfg["entropy"] = 2 ** 40 + rng.randrange(2 ** 20)
-    t0 = rng.choice([0.0, -1.5, 2.0, 0.25, -0.5, -1.0])
+    # (0.12345 / -0.98765: end points that are NOT on the rounding grid of any tolerance used below)
+    t0 = rng.choice([0.0, -1.5, 2.0, 0.25, -0.5, -1.0, 0.12345, -0.98765])
     span = rng.choice([1.0, 0.37, max_span])
     cfg["t0"], cfg["t1"] = t0, t0 + span
     # the end points may be handed over as 0-d tensors (this is what sdeint itself does for its default Brownian motion)
@@ -57,6 +59,11 @@ def random_config(rng, wrappers=("interval",), allow_f32=True, levy=None, shapes
         cfg["tol"] = rng.choice([1e-3, 1e-6, 1e-6, 5e-4])
         cfg["supply"] = rng.choice(["none", "none", "W"])
         cfg["pool"] = rng.choice([24, 24, 4, 8])
+    if (cfg.get("tol") or 0) > 0 and not offgrid_ends_ok and t0 in (0.12345, -0.98765):
+        # with a tolerance, an end point off the tolerance grid is not a "resolved time": the relational checks (C03-C06)
+        # keep their objects' ends on the grid; crash-freedom (C07) is checked with off-grid ends as well
+        t0r = round(t0, 2)
+        cfg["t0"], cfg["t1"] = t0r, t0r + (cfg["t1"] - t0)
     return cfg
 
 
